@@ -182,8 +182,12 @@ Over == net = None /\ ist \in {"done", "failed"} /\ rst \in {"done", "failed"}
 \* C20: the two peers complete exactly when they run the same protocol and
 \* every act arrived as it was sent (an attacker action that reproduces the
 \* original message bit for bit is no alteration).
+\* (On the wire the attacker may also put its own identity X on act 1: the
+\* responder then runs - and may complete - a handshake with X, a peer that
+\* happens to relay somebody else's nonce. That session is X's, it is judged by
+\* WireSound: everything the responder accepted in it was signed by X.)
 CompleteIff ==
-    Over => (BothDone <=> (ip = rp /\ Unaltered(1) /\ Unaltered(2) /\ Unaltered(3)))
+    (Over /\ pin # "X") => (BothDone <=> (ip = rp /\ Unaltered(1) /\ Unaltered(2) /\ Unaltered(3)))
 
 \* ... and then both hold the challenge derived from both nonces
 Agreement ==
@@ -205,5 +209,5 @@ WireSound ==
                                 /\ dlv[1].sig = [by |-> pin, over |-> dlv[1].m])
 
 \* a mismatch of protocol ids can never end in two completed sides
-ProtocolMismatchFails == (ip # rp /\ Over) => ~BothDone
+ProtocolMismatchFails == (ip # rp /\ Over /\ pin # "X") => ~BothDone
 =============================================================================
